@@ -46,15 +46,23 @@ func genEdit(r *rng.R, flavor string) Edit {
 	}
 	switch f {
 	case "object":
-		switch r.Pick(5, 3, 1, 1) {
+		switch r.Pick(10, 6, 2, 2, 1, 1, 1) {
 		case 0:
 			return Edit{K: "oset", Key: keys[r.Intn(len(keys))], V: r.Intn(100)}
 		case 1:
 			return Edit{K: "odel", Key: keys[r.Intn(len(keys))]}
 		case 2:
 			return Edit{K: "onew", Key: keys[r.Intn(len(keys))], V: r.Intn(100)}
-		default:
+		case 3:
 			return Edit{K: "osets", Key: keys[r.Intn(len(keys))], S: strs[r.Intn(len(strs))]}
+		case 4:
+			// members that are containers with content of their own: deleting one and undoing the
+			// deletion has to bring the content back on every replica
+			return Edit{K: "otext", Key: keys[r.Intn(len(keys))], S: strs[r.Intn(len(strs))]}
+		case 5:
+			return Edit{K: "oarr", Key: keys[r.Intn(len(keys))], V: r.Intn(100)}
+		default:
+			return Edit{K: "ocnt", Key: keys[r.Intn(len(keys))], V: r.Intn(100)}
 		}
 	case "array":
 		switch r.Pick(3, 4, 3, 1) {
@@ -220,7 +228,7 @@ func Generate(r *rng.R, g GenConfig) *History {
 				st.Edits = append(st.Edits, Edit{K: "pset", Key: "cur", S: fmt.Sprint(r.Intn(9))})
 			}
 			if g.FailUpd && r.Chance(1, 6) {
-				st.Fail = []string{"err", "panic", "size", "sizep", "schema", "schemap"}[r.Intn(6)]
+				st.Fail = []string{"err", "panic", "size", "sizep", "schema", "schemap", "errp", "panicp"}[r.Intn(8)]
 			}
 			h.Steps = append(h.Steps, st)
 		case 1:
